@@ -145,16 +145,24 @@ def _load_from_file_system(hashed_grammar, path, p_time, cache_path=None):
                 module_cache_item = pickle.load(f)
             finally:
                 gc.enable()
-    except FileNotFoundError:
-        return None
-    else:
+
         if p_time > module_cache_item.change_time:
             # The file was modified after it was read for this entry, but
             # before the entry was written to the disk.
             return None
+        node = module_cache_item.node
+    except FileNotFoundError:
+        return None
+    except Exception:
+        # A cache file that was only written partially (crash, full disk,
+        # another process that is writing it right now) or is otherwise
+        # corrupt can make pickle raise nearly anything. It's just not usable.
+        LOG.debug('pickle could not be loaded: %s', path)
+        return None
+    else:
         _set_cache_item(hashed_grammar, path, module_cache_item)
         LOG.debug('pickle loaded: %s', path)
-        return module_cache_item.node
+        return node
 
 
 def _set_cache_item(hashed_grammar, path, module_cache_item):
